@@ -77,3 +77,66 @@ Theorem C14_pass_preserves_skeleton : forall matches calc_h stage rules fix_taut
   standardize_pass matches calc_h stage rules fix_taut g = Ok (g', log', fixed') -> skeleton g' = skeleton g.
 Proof. exact (fun matches calc_h stage rules fix_taut g => pass_preserves_skeleton matches calc_h stage rules fix_taut 0 g [] []). Qed.
 Print Assumptions C14_pass_preserves_skeleton.
+
+(* what a pass never changes: atom numbers in order, elements, isotopes; the adjacency (no bond is created or deleted);
+   the net charge *)
+Theorem C14_conserved_def : forall g g',
+  conserved g g' <-> skeleton g' = skeleton g /\ graph_of g' = graph_of g /\ total_charge g' = total_charge g.
+Proof. intros g g'. unfold conserved. tauto. Qed.
+Print Assumptions C14_conserved_def.
+
+(* pass_conserves: for ANY rule list satisfying the table obligations (ii)-(iv), ANY matcher whose mappings satisfy
+   match_ok (distinct atoms; element, metal-ness and constrained charge of every pattern atom; adjacency of pattern
+   bonds) and that is silent on unbalanced rules, ANY hydrogen calculator: a private __standardize pass over a
+   duplicate-free molecule NEVER FAILS and conserves skeleton, adjacency and net charge.  In particular the non-atomic
+   `bad charge formed` rollback (defect 10 of DESIGN section 8) cannot leave a half-applied patch: obligation (iii)
+   puts the only atom that can overflow first *)
+Theorem C14_pass_conserves : forall matches calc_h stage rules fix_taut g,
+  (forall r, In r rules -> rule_ok r = true) ->
+  (forall stage ridx r g mp, In r rules -> In mp (matches stage ridx r g) -> match_ok r g mp = true) ->
+  (forall stage ridx r g, In r rules -> delta_sum r <> 0 -> matches stage ridx r g = []) ->
+  NoDup (ids g) ->
+  exists g' log fixed, standardize_pass matches calc_h stage rules fix_taut g = Ok (g', log, fixed) /\ conserved g g'.
+Proof. exact (fun matches calc_h stage rules fix_taut g => pass_conserves matches calc_h stage rules fix_taut g). Qed.
+Print Assumptions C14_pass_conserves.
+
+(* the pass sequence of standardize() (double, double again when the first shot fixed something, single, metal) with the
+   REAL regenerated rule collections: never fails, conserves skeleton, adjacency and net charge, for any sound matcher
+   that never matches a pattern whose centre atom has no valence state (valence-valid input) *)
+Theorem C14_standardize_real_conserves : forall matches calc_h fix_taut g,
+  (forall stage ridx r g mp, In r (double_rules ++ single_rules ++ metal_rules) -> In mp (matches stage ridx r g) -> match_ok r g mp = true) ->
+  (forall stage ridx r g, In r (double_rules ++ single_rules ++ metal_rules) -> centre_invalid r = true -> matches stage ridx r g = []) ->
+  NoDup (ids g) ->
+  exists g' log fixed,
+    standardize_passes matches calc_h double_rules single_rules metal_rules fix_taut g = Ok (g', log, fixed) /\ conserved g g'.
+Proof. exact standardize_real_conserves. Qed.
+Print Assumptions C14_standardize_real_conserves.
+
+(* non-vacuity: the hypotheses are met by a matcher that does match (nitromethane spelled C-N(=O)=O, both embeddings of
+   the nitro rule offered; the second is skipped as overlapping; N becomes +1, one O becomes -1, the N-O bond single) *)
+Theorem C14_conserves_nonvacuous :
+  (forall stage ridx r g mp, In r (double_rules ++ single_rules ++ metal_rules) -> In mp (nitro_matches stage ridx r g) -> match_ok r g mp = true) /\
+  (forall stage ridx r g, In r (double_rules ++ single_rules ++ metal_rules) -> centre_invalid r = true -> nitro_matches stage ridx r g = []) /\
+  NoDup (ids nitro_mol) /\
+  exists g' log fixed,
+    standardize_passes nitro_matches (fun _ _ => Some 0) double_rules single_rules metal_rules true nitro_mol = Ok (g', log, fixed) /\
+    List.length log = 1%nat /\ charge_of g' 2 = Some 1 /\ charge_of g' 3 = Some (-1) /\ charge_of g' 4 = Some 0 /\
+    bond_of g' 2 3 = Some (mkBond 1 None) /\ total_charge g' = total_charge nitro_mol.
+Proof. exact conserves_nonvacuous. Qed.
+Print Assumptions C14_conserves_nonvacuous.
+
+(* resonance_conserves: applying a found delocalisation path (charged: exit atom -1, entry atom +1, bond orders along the
+   path; radical: both ends lose the radical mark) conserves skeleton, adjacency and net charge.  The path SEARCH is not
+   modelled. *)
+Theorem C14_resonance_conserves : forall g n p g', NoDup (ids g) ->
+  (apply_charge_path g n p = Ok g' -> conserved g g') /\ (apply_radical_path g n p = Ok g' -> conserved g g').
+Proof. exact (fun g n p g' Hnd => conj (charge_path_conserves g n p g' Hnd) (radical_path_conserves g n p g' Hnd)). Qed.
+Print Assumptions C14_resonance_conserves.
+
+(* standardize_charges: one accepted match discharges an atom the pattern requires to be +1 and charges an atom the pattern
+   requires to be neutral (table theorem C14_table_charged_balanced): the net charge is conserved *)
+Theorem C14_charged_patch_conserves : forall g d u ad au,
+  NoDup (ids g) -> d <> u -> atom_of g d = Some ad -> atom_of g u = Some au -> a_chg ad = 1 -> a_chg au = 0 ->
+  conserved g (charged_patch g d u).
+Proof. exact charged_patch_conserves. Qed.
+Print Assumptions C14_charged_patch_conserves.
